@@ -312,7 +312,8 @@ fn write_replay(prop: &str, seed: u64, f: &Found, execs: &[ExecRecord], original
         "message": f.violation.msg,
         "case": f.case,
         "plan": serde_json::to_value(&f.plan).unwrap(),
-        "expected_traces": execs.iter().map(|e| e.trace.clone()).collect::<Vec<_>>(),
+        "expected_traces_rle": execs.iter().map(|e| rle(&e.trace)).collect::<Vec<_>>(),
+        "trace_format": "run-length encoded scheduler decisions per execution: <task id>x<count>, in order",
         "forced_switches": execs.iter().map(|e| match &e.spec.mode { Mode::Overrides{forced} => json!(forced), m => serde_json::to_value(m).unwrap() }).collect::<Vec<_>>(),
         "original_case_ops_hint": original.case.to_string().len(),
         "minimised_case_ops_hint": f.case.to_string().len(),
@@ -322,6 +323,36 @@ fn write_replay(prop: &str, seed: u64, f: &Found, execs: &[ExecRecord], original
     let path = format!("{dir}/{prop}-{seed}-{:08x}.json", h as u32);
     std::fs::write(&path, text).expect("write replay");
     path
+}
+
+fn rle(t: &[u32]) -> String {
+    let mut out = String::new();
+    let mut i = 0;
+    while i < t.len() {
+        let mut j = i;
+        while j < t.len() && t[j] == t[i] {
+            j += 1;
+        }
+        if !out.is_empty() {
+            out.push(',');
+        }
+        out.push_str(&format!("{}x{}", t[i], j - i));
+        i = j;
+    }
+    out
+}
+
+fn unrle(s: &str) -> Vec<u32> {
+    let mut v = vec![];
+    for part in s.split(',').filter(|p| !p.is_empty()) {
+        let mut it = part.split('x');
+        let t: u32 = it.next().unwrap_or("0").parse().unwrap_or(0);
+        let n: usize = it.next().unwrap_or("1").parse().unwrap_or(1);
+        for _ in 0..n {
+            v.push(t);
+        }
+    }
+    v
 }
 
 fn replay(path: &str) -> i32 {
@@ -338,7 +369,10 @@ fn replay(path: &str) -> i32 {
     let mut plan: SchedPlan = serde_json::from_value(v["plan"].clone()).expect("plan");
     plan.keep_trace = true;
     let out = engine.run(&v["case"], &plan);
-    let expected: Vec<Vec<u32>> = serde_json::from_value(v["expected_traces"].clone()).unwrap_or_default();
+    let expected: Vec<Vec<u32>> = match v.get("expected_traces_rle").and_then(|x| x.as_array()) {
+        Some(a) => a.iter().map(|s| unrle(s.as_str().unwrap_or(""))).collect(),
+        None => serde_json::from_value(v["expected_traces"].clone()).unwrap_or_default(),
+    };
     let got: Vec<Vec<u32>> = out.execs.iter().map(|e| e.trace.clone()).collect();
     let same_schedule = expected == got;
     println!("replay: property={prop} executions={} scheduler_steps={:?} schedule_identical_to_recording={same_schedule}",
@@ -375,12 +409,40 @@ fn main() {
         "run" => cmd_run(&args),
         "replay" => replay(args.get(2).expect("replay <file>")),
         "digest" => cmd_digest(&args),
+        "vary" => cmd_vary(&args),
         _ => {
             eprintln!("usage: simcheck run --property C09 --tier quick|thorough [--runs N] | replay <file> | digest --property C09 --runs N");
             2
         }
     };
     std::process::exit(code);
+}
+
+/// re-run the case of a replay file under N other schedule / hash seeds (diagnosis:
+/// how schedule dependent is a violation?)
+fn cmd_vary(args: &[String]) -> i32 {
+    let path = args.get(2).expect("vary <file> <n>");
+    let n: u64 = args.get(3).map(|s| s.parse().unwrap()).unwrap_or(50);
+    let v: Value = serde_json::from_str(&std::fs::read_to_string(path).expect("read")).expect("json");
+    let prop = v["property"].as_str().unwrap().to_string();
+    let engine = engine_for(&prop).expect("engine");
+    let plan0: SchedPlan = serde_json::from_value(v["plan"].clone()).expect("plan");
+    let mut hits = 0;
+    for i in 0..n {
+        let mut plan = plan0.clone();
+        plan.explicit.clear();
+        plan.seed = mix(plan0.seed, 1000 + i);
+        plan.hash_seed = mix(plan0.hash_seed, 1000 + i);
+        let out = engine.run(&v["case"], &plan);
+        if let Some(x) = out.violation {
+            hits += 1;
+            if hits <= 3 {
+                println!("vary {i}: {}", x.sig());
+            }
+        }
+    }
+    println!("vary: {hits} of {n} alternative schedules / hash seeds show a violation");
+    0
 }
 
 /// print one line per run (index, verdict, interleaving hashes): used by the
